@@ -544,6 +544,11 @@ def catalogue():
     add("score.replace_instruments", ["score"], lambda a, r: a[0].replace_instruments(**{a[0].instruments[0]: "harp__3"}))
     add("score.delete_instruments", ["score"], lambda a, r: a[0].delete_instruments(a[0].instruments[:1]))
     add("score.get_instruments", ["score"], lambda a, r: a[0].get_instruments(a[0].instruments[:1]))
+    add("score.realize_tags", ["score"], lambda a, r: a[0].realize_tags())
+    add("chord.realize_tags", ["chord"], lambda a, r: a[0].realize_tags())
+    add("mel.realize_tags", ["mel"], lambda a, r: a[0].realize_tags())
+    add("note.realize_tags", ["note", "note"], lambda a, r: a[0].realize_tags(last_note=a[1], next_note=a[1]))
+    add("note.ornament-attr", ["note"], lambda a, r: getattr(a[0], r.choice(["accent", "mordant", "grupetto", "retarded", "roll"])))
     add("score.to_sequence", ["score"], lambda a, r: a[0].to_sequence())
     add("score.to_events", ["score"], lambda a, r: a[0].to_events(tempo=90))
     add("score.to_midi", ["score"], lambda a, r: to_midi_tmp(a[0]))
@@ -615,6 +620,12 @@ class Histories(Stream):
         sc2 = sg.mk_rscore(sg.equalize([sg.rand_rchord(rng, names, rel=0, systems="sshcb") | {"parts": [[nm, [sg.rand_rnote(rng, rel=0, systems="sshcb") for _ in range(3)]] for nm in names]}
                                         for _ in range(3)]))
         pool += [sc2, sc2.chords[1], sc2.chords[1].score[names[0]]]
+        # objects carrying ornament tags (realisation must not touch them either)
+        from musiclang import Melody, Score
+        tagged = Melody([n.add_tag(rng.choice(["accent", "mordant", "retarded", "accent"])) if n.type not in ("r", "l") else n.copy()
+                         for n in sc2.chords[0].score[names[0]].notes])
+        tchord = sc2.chords[0](**{names[0]: tagged, names[1]: sc2.chords[0].score[names[1]]})
+        pool += [tagged, tchord, Score([tchord, sc2.chords[1]]), tagged.notes[0]]
         return pool
 
     def impl(self, case):
